@@ -55,9 +55,14 @@ func (yn *YamlNode) IsIdentical(b *YamlNode) bool {
 func newYamlNode(node *yaml.Node, offsetLine, offsetColumn int, contentLines []string, minColumn int) *YamlNode {
 	pos := diags.NewPositionRange(contentLines, node, minColumn)
 	pos.AddOffset(offsetLine, offsetColumn)
+	value := nodeValue(node)
+	if node.Kind == yaml.ScalarNode && node.ShortTag() == nullTag {
+		// `key: null` and `key: ~` are decoded by Prometheus as an empty value.
+		value = ""
+	}
 	return &YamlNode{
 		Pos:   pos,
-		Value: nodeValue(node),
+		Value: value,
 	}
 }
 
